@@ -145,3 +145,63 @@ def twin_clients(pid, tier, seed, known):
                               meaning='the same abstract script through the SDK v1 and the SDK v2 client'), ''))
     return dict(coverage=dict(twin_scripts=len(scripts), twin_in_envelope=nt), evaluations=ev, nontrivial=nt, traces=2 * len(scripts),
                 violations=viol, rule='twin: the same script through both clients, compared step by step inside the envelope (no empty containers, names >= 3 chars); ')
+
+
+# ---------------- C11: schedules under the race detector ----------------
+def race_stress(pid, tier, seed, known):
+    import re, subprocess, time
+    ms = 1500 if tier == 'quick' else 60000
+    env = dict(runner.GOENV, VERIF_RACE_MS=str(ms), VERIF_SEED=str(seed))
+    env.pop('CGO_ENABLED', None)
+    hdir = os.path.join(ROOT, 'harness')
+    t0 = time.time()
+    p = subprocess.run(['go', 'test', '-race', '-tags', 'verif', '-run', 'TestConc', '-count=1', '-v', '.'], cwd=hdir, env=env,
+                       stdout=subprocess.PIPE, stderr=subprocess.STDOUT, text=True, timeout=3600)
+    log = p.stdout
+    races = len(re.findall(r'WARNING: DATA RACE', log))
+    fails = re.findall(r'--- FAIL: (\w+)', log)
+    lin = re.findall(r'LINEARIZABILITY: [^\n]*', log)
+    passed = re.findall(r'--- PASS: (\w+)', log)
+    viol = []
+    if races or fails or p.returncode != 0:
+        excerpt = log[log.find('WARNING: DATA RACE'):][:3000] if races else log[-3000:]
+        viol.append((dict(kind='concurrency', data_race_reports=races, failed_tests=fails, linearizability=lin, excerpt=excerpt,
+                          how_to_run='cd /verif/harness && go test -race -tags verif -run TestConc -count=1 .',
+                          meaning='race detector reports and outcomes of concurrent executions (N concurrent ADD 1 = N, one winner among racing conditional puts)'), ''))
+    return dict(coverage=dict(race_tests_passed=passed, data_race_reports=races, race_budget_ms=ms), evaluations=len(passed) + len(fails),
+                nontrivial=len(passed), traces=len(passed) + len(fails), violations=viol,
+                samples=[dict(test='TestConcV2Mix', goroutines=8, calls='every client method incl. table management, batch calls, ClearTable, failure toggling', budget_ms=ms)],
+                rule='conc: 8 goroutines x every kind of client call under the Go race detector; counter and one-winner linearizability checks; ')
+
+
+# ---------------- C14: poke matrix ----------------
+def poke_matrix(pid, tier, seed, known):
+    viol, total, cells = [], 0, []
+    known_cells = set()
+    for k in known:
+        if k.get('status') == 'known':
+            for c in k.get('cells', []):
+                known_cells.add(tuple(c))
+    known_lines = []
+    for sdk in ('v1', 'v2'):
+        obs = runner.run_harness('v2', [{'id': 'p', 'ops': [{'op': 'poke_matrix', 'sdk': sdk}]}], dump=False, tag='poke')['p'][0]
+        if obs.get('r') != 'ok':
+            viol.append((dict(kind='poke-matrix', sdk=sdk, error=obs), 'no-failing-input-found'))
+            continue
+        for c in obs['matrix']:
+            total += 1
+            if c.get('note'):
+                viol.append((dict(kind='poke-matrix', sdk=sdk, cell=c, meaning='the probe itself failed'), 'no-failing-input-found'))
+            if c['visible']:
+                cell = (sdk, c['dir'], c['kind'])
+                if cell in known_cells:
+                    continue
+                cells.append(cell)
+                if len(viol) < 3:
+                    viol.append((dict(kind='poke-matrix', sdk=sdk, direction=c['dir'], value_kind=c['kind'],
+                                      meaning='mutating this caller-side location after the call returned changed what later reads return',
+                                      how_to_run='harness unit op {"op":"poke_matrix","sdk":"%s"}' % sdk), ''))
+    return dict(coverage=dict(poke_cells=total, visible_cells=[list(c) for c in cells]), evaluations=total, nontrivial=total, traces=total,
+                violations=viol, known_lines=known_lines,
+                samples=[dict(sdk='v1', direction='put_input', kind='L.S', poke='*item["a"].L[0].S = "POKED" after PutItem returned, then GetItem')],
+                rule='poke: 2 clients x 7 directions (PutItem input, UpdateItem values, GetItem/Query/Scan/UpdateItem outputs, stability of returned results) x 15 locations; ')
